@@ -208,8 +208,14 @@ impl StorageEngine {
                 return Err(StorageError::KnowledgeGraphExists(name.to_string()));
             }
             Entry::Vacant(vacant) => {
-                // Create knowledge graph directory structure
+                // Create knowledge graph directory structure. A new graph starts empty: a
+                // directory left behind by an interrupted drop of a graph with the same name
+                // (rule and schema catalogs, index files) must not be adopted. The default
+                // graph can never have been dropped, so its directory is kept.
                 let db_dir = self.config.storage.data_dir.join(name);
+                if db_dir.exists() && name != self.config.storage.default_knowledge_graph {
+                    fs::remove_dir_all(&db_dir)?;
+                }
                 fs::create_dir_all(&db_dir)?;
                 fs::create_dir_all(db_dir.join("relations"))?;
 
@@ -1659,26 +1665,35 @@ impl StorageEngine {
     /// 3. Consolidate updates to get current state
     /// 4. Populate in-memory `IQLEngine`
     fn load_all_knowledge_graphs(&mut self) -> StorageResult<()> {
-        // Discover knowledge graphs from persist shards
+        // The metadata file is the authority on which knowledge graphs exist: it is rewritten
+        // atomically and durably when a graph is created and - before any of its data is
+        // removed - when a graph is dropped. A graph that still has shards but is not listed
+        // there is the leftover of a drop that was interrupted by a crash; resurrecting it from
+        // its shard names would bring back a half-deleted graph. Its shards are removed by the
+        // orphan clean-up below.
         let shard_names = self.persist.list_shards()?;
         let mut kg_names: std::collections::HashSet<String> = std::collections::HashSet::new();
 
-        for shard in &shard_names {
-            if let Some(kg_name) = shard.split(':').next() {
-                kg_names.insert(kg_name.to_string());
-            }
-        }
-
-        // Also check metadata file for knowledge graphs without data yet
         let metadata_path = self
             .config
             .storage
             .data_dir
             .join("metadata/knowledge_graphs.json");
-        if metadata_path.exists() {
-            if let Ok(metadata) = KnowledgeGraphsMetadata::load(&metadata_path) {
-                for kg_info in metadata.knowledge_graphs {
-                    kg_names.insert(kg_info.name);
+        let listed = if metadata_path.exists() {
+            KnowledgeGraphsMetadata::load(&metadata_path).ok()
+        } else {
+            None
+        };
+        if let Some(metadata) = listed {
+            for kg_info in metadata.knowledge_graphs {
+                kg_names.insert(kg_info.name);
+            }
+        } else {
+            // No (readable) metadata, e.g. a data directory written by an older version:
+            // fall back to discovering knowledge graphs from persist shards
+            for shard in &shard_names {
+                if let Some(kg_name) = shard.split(':').next() {
+                    kg_names.insert(kg_name.to_string());
                 }
             }
         }
